@@ -474,6 +474,7 @@ def check_real(shells, convs, with_eri, rng, viols, errs, tag):
     Rs = [relation_to_default(sh, t) for sh, t in zip(typed, types)]
     nf = sum(c.shape[0] for c in Cs)
     T = rng.normal(size=(max(1, nf + int(rng.integers(-2, 3))), nf))
+    Tnear = np.eye(nf) * (1.0 + float(rng.choice([5e-6, -3e-6, 2e-7]))) + np.diag(1e-6 * rng.normal(size=nf)) + 1e-9 * rng.normal(size=(nf, nf))
 
     # natural magnitude of momentum-type arrays (they vanish by symmetry for a single centre: pure rounding noise)
     from gbasis.integrals.kinetic_energy import kinetic_energy_integral as _kin
@@ -511,6 +512,10 @@ def check_real(shells, convs, with_eri, rng, viols, errs, tag):
         tt = cm.call(fn, typed, transform=T)
         if not isinstance(t, cm.Raised):
             judge(tt, apply(T, t, axes), "%s with transform vs T applied to every basis index" % name, "transform")
+            # a transformation close to (and exactly equal to) the identity is still a transformation
+            for Tn, nm in ((Tnear, "near-identity"), (np.eye(nf), "identity")):
+                tn = cm.call(fn, typed, transform=Tn)
+                judge(tn, apply(Tn, t, axes), "%s with a %s transform vs T applied to every basis index" % (name, nm), "transform_" + nm.replace("-", "_"))
         if convs and any(cv != (None, None) for cv in convs):
             d = cm.call(fn, dflt)
             if not isinstance(d, cm.Raised):
